@@ -13,8 +13,10 @@
 package main
 
 import (
+	"bufio"
 	"fmt"
 	"os"
+	"os/exec"
 	"runtime"
 	"sync"
 	"time"
@@ -22,18 +24,77 @@ import (
 	"verif/harness/hk"
 )
 
+// Every node started in an OS process adds its name to the process-global atom
+// cache of net/edf, and the whole cache travels in every handshake (64 KiB
+// limit): one process can host only some 2000 node names. The thorough tier
+// therefore shards its cases over child processes (re-exec of this binary).
+const shardsThorough = 6
+
+func coordinator(t0 time.Time) {
+	bin := os.Getenv("VERIF_BIN")
+	if bin == "" {
+		bin = os.Args[0]
+	}
+	var outMu sync.Mutex
+	var wg sync.WaitGroup
+	for i := 0; i < shardsThorough; i++ {
+		wg.Add(1)
+		go func(i int) {
+			defer wg.Done()
+			cmd := exec.Command(bin)
+			cmd.Env = append(os.Environ(), fmt.Sprintf("C14_SHARD=%d/%d", i, shardsThorough))
+			cmd.Stderr = os.Stderr
+			out, err := cmd.StdoutPipe()
+			if err == nil {
+				err = cmd.Start()
+			}
+			if err != nil {
+				hk.Emit(hk.Case{ID: fmt.Sprintf("shard/%d", i), Scenario: "shard", Verdict: hk.Inconclusive, What: "cannot start shard: " + err.Error()})
+				return
+			}
+			sc := bufio.NewScanner(out)
+			sc.Buffer(make([]byte, 1<<20), 64<<20)
+			for sc.Scan() {
+				outMu.Lock()
+				os.Stdout.Write(append(sc.Bytes(), '\n'))
+				outMu.Unlock()
+			}
+			if err := cmd.Wait(); err != nil {
+				hk.Emit(hk.Case{ID: fmt.Sprintf("shard/%d", i), Scenario: "shard", Verdict: hk.Inconclusive, What: "shard process failed: " + err.Error()})
+			}
+		}(i)
+	}
+	wg.Wait()
+	hk.Note("wall_seconds", int(time.Since(t0).Seconds()))
+	os.Stdout.Sync()
+	os.Exit(0)
+}
+
 func main() {
 	hk.InstallHook()
 	installJoinObserver()
-	if os.Getenv("C14_EXP") != "" {
-		experiment()
+	t0 := time.Now()
+	shard, shards := 0, 1
+	if v := os.Getenv("C14_SHARD"); v != "" {
+		fmt.Sscanf(v, "%d/%d", &shard, &shards)
+	}
+	if shards > 1 {
+		// child process: rule and assumptions are stated by the coordinator
+		runShard(t0, shard, shards)
 		return
 	}
-	t0 := time.Now()
 	hk.Rule("fault cases: the 14-step exchange (LinkNode, MonitorNode, Link/Monitor on pid, registered name, alias, event, Call pid, Send pid, Call name, Call alias) is profiled without a fault; a case = dial orientation {survivor dialed, victim dialed} x fault {cut relayed link, StopForce, Stop, kill target, target exits with custom reason} x step x position {injected by the harness before the step; when the first request byte reaches the relay; after n request bytes; right after the last request byte; likewise for the response}; quick = every 5th case of the enumeration (offset by the seed) with one mid-frame offset per frame, thorough = all cases with many mid-frame offsets. A case is non-trivial iff the fault really fired while a step of the exchange was in flight or about to start and at least two relation requests had returned nil before (measured from the relay counters and the request results). distinct = orientation x fault x step x position class. incarnation cases: orientation of the reconnect x Stop/StopForce x direct/relayed, non-trivial iff the new incarnation reused the numeric process id of the old one and a call to it succeeded.")
 	hk.Assume("one TCP link per connection (pool size 1), so cutting the relayed link is the loss of the connection")
 	hk.Assume("a process whose exit signal is not trappable (parent is the node core) counts as notified when it is terminated with the reason; observers are therefore children of an ordinary process")
 	hk.Assume("stuck-state witness: survivor has no connection entry for the victim, observer Sleep with empty mailbox and no runner, unchanged for 5 s => the missing notification will never come (node-down fan-out is a non-blocking in-memory loop)")
+	if hk.Thorough() && hk.Only() == "" && shards == 1 {
+		coordinator(t0)
+		return
+	}
+	runShard(t0, shard, shards)
+}
+
+func runShard(t0 time.Time, shard, shards int) {
 	reg := hk.FreePort()
 	// a long-lived node keeps the registrar of this process alive
 	regNode, err := hk.StartNode(hk.NodeCfg{Name: nodeName("r"), Network: true, RegPort: reg, PoolSize: 1})
@@ -56,7 +117,9 @@ func main() {
 			continue
 		}
 		profiles[d] = pr
-		hk.Sample(map[string]any{"profile": pr})
+		if shard == 0 {
+			hk.Sample(map[string]any{"profile": pr})
+		}
 	}
 
 	var jobs []func()
@@ -76,7 +139,6 @@ func main() {
 			jobs = append(jobs, func() { runFaultCase(reg, fc, pr) })
 		}
 	}
-	hk.Stat("fault_cases_enumerated", int64(nFault))
 	var incs []incCase
 	for rep := 0; rep < hk.Pick(1, 3); rep++ {
 		for _, d := range []string{"A", "B"} {
@@ -97,7 +159,16 @@ func main() {
 		jobs = append(jobs, func() { runIncarnationCase(reg, ic) })
 	}
 
-	workers := hk.Pick(8, 12)
+	if shards > 1 {
+		var mine []func()
+		for i, j := range jobs {
+			if i%shards == shard {
+				mine = append(mine, j)
+			}
+		}
+		jobs = mine
+	}
+	workers := hk.Pick(8, 2)
 	if n := runtime.NumCPU(); n < workers {
 		workers = n
 	}
@@ -121,71 +192,14 @@ func main() {
 	hk.Stat("cut_healed_by_rejoin", healed.Load())
 	hk.Stat("cut_healed_by_rejoin_but_round_trip_fails", healedOneWay.Load())
 	hk.Stat("responses_dropped_before_wait_observed", droppedResponses.Load())
-	hk.Stat("fault_cases_scheduled", int64(nFault))
-	hk.Stat("incarnation_cases_scheduled", int64(len(incs)))
-	hk.Note("wall_seconds", int(time.Since(t0).Seconds()))
+	hk.Stat("late_requests_not_judged_process_starved", lateUnderLoad.Load())
+	if shard == 0 {
+		hk.Stat("fault_cases_scheduled", int64(nFault))
+		hk.Stat("incarnation_cases_scheduled", int64(len(incs)))
+	}
+	if shards == 1 {
+		hk.Note("wall_seconds", int(time.Since(t0).Seconds()))
+	}
 	os.Stdout.Sync()
 	os.Exit(0)
-}
-
-func experiment() {
-	reg := hk.FreePort()
-	if os.Getenv("C14_EXP") == "first" {
-		var wg sync.WaitGroup
-		for w := 0; w < 8; w++ {
-			wg.Add(1)
-			go func(w int) {
-				defer wg.Done()
-				for i := 0; i < 40; i++ {
-					d := []string{"A", "B"}[i%2]
-					p, err := newPair(reg, "x", d, nil)
-					if err != nil {
-						fmt.Println("pair:", err)
-						continue
-					}
-					ab0, ba0 := p.bytesAB(), p.bytesBA()
-					r, ok := p.doOn(p.obs, opSpec{"l", "link", "pid"}, p.tgt.pid, 5)
-					if r.Err != nil || !ok {
-						time.Sleep(100 * time.Millisecond)
-						fmt.Printf("w%d i%d dialer=%s FIRST LINK err=%v dur=%v ab %d->%d ba %d->%d tgt events=%v\n", w, i, d, r.Err, r.Dur, ab0, p.bytesAB(), ba0, p.bytesBA(), p.tgt.inst.Events())
-						info, e := p.B.ProcessInfo(p.tgt.pid)
-						fmt.Printf("   B target info err=%v state=%v; A obs links %v\n", e, info.State, func() any { i, _ := p.A.ProcessInfo(p.obs.pid); return i.LinksPID }())
-					}
-					p.close()
-				}
-			}(w)
-		}
-		wg.Wait()
-		return
-	}
-	p, err := newPair(reg, "x", os.Getenv("C14_DIALER"), nil)
-	if err != nil {
-		fmt.Println("pair:", err)
-		return
-	}
-	fmt.Println("connected; bytes ab/ba", p.bytesAB(), p.bytesBA())
-	for _, op := range fullScript() {
-		res, ok := p.do(op)
-		fmt.Printf("op %-14s ok=%v err=%v dur=%v ab=%d ba=%d\n", op.Name, ok, res.Err, res.Dur, p.bytesAB(), p.bytesBA())
-	}
-	time.Sleep(300 * time.Millisecond)
-	switch os.Getenv("C14_EXP") {
-	case "cut":
-		p.R.CutAll()
-	case "stopforce":
-		p.B.StopForce()
-	case "stop":
-		p.B.Stop()
-	case "kill":
-		p.B.Kill(p.tgt.pid)
-	case "custom":
-		p.B.Send(p.tgt.pid, fmt.Errorf("custom-c14"))
-	}
-	for i := 0; i < 30; i++ {
-		time.Sleep(100 * time.Millisecond)
-		fmt.Printf("t=%d A->B %v  B->A %v notifs=%d accepted=%d rejected=%d\n", i, connected(p.A, p.B.Name()), connected(p.B, p.A.Name()), len(p.obs.notifs()), p.R.Accepted.Load(), p.warnB.rejected.Load())
-	}
-	for _, n := range p.obs.notifs() {
-		fmt.Printf("  %s\n", n)
-	}
 }
